@@ -68,7 +68,7 @@ func judge(t *rapid.T, p ls.Program, what string) {
 	if p.LateGates {
 		ev.Label("gates_opened_after_Wait_was_called")
 	}
-	ev.Label([]string{"ctx:plain", "ctx:with_cause", "ctx:value_carrying_grandchild_of_cancelled_parent"}[p.CtxFlavor])
+	ev.Label([]string{"ctx:plain", "ctx:with_cause", "ctx:value_carrying_grandchild_of_cancelled_parent", "ctx:foreign_implementation"}[p.CtxFlavor])
 	ev.Case(nt, ev.Hash(p.String()), func() string {
 		return fmt.Sprintf("%s %s => accepted=%d started=%d ctxRejected=%d", what, p, res.Accepted, res.Started, res.PushRejectedByCtx)
 	})
